@@ -20,7 +20,7 @@ var purePkgs = []string{
 	"strconv", "path", "path/filepath", "fmt", "strings", "bytes", "math", "errors", "unicode", "unicode/utf8",
 	"encoding/hex", "encoding/binary", "github.com/pingcap/errors", "github.com/pkg/errors", "net/url", "regexp", "math/bits",
 	"github.com/coreos/go-semver/semver", "github.com/gogo/protobuf/proto", "github.com/golang/protobuf/proto", "reflect", "encoding/json",
-	"github.com/docker/go-units",
+	"github.com/docker/go-units", "context", "go.etcd.io/etcd/clientv3", "go.etcd.io/etcd/etcdserver/etcdserverpb", "go.etcd.io/etcd/mvcc/mvccpb",
 }
 
 // results of these are arbitrary (not functions of the arguments) but the heap is untouched.
@@ -84,6 +84,9 @@ func (s *Session) call(fr *Frame, cc *ssa.CallCommon, st *State, instr *ssa.Call
 	}
 	if cv.Fn != nil {
 		return s.staticCall(fr, cv.Fn, nil, args, st)
+	}
+	if nt, ok := cc.Value.Type().(*types.Named); ok && nt.Obj().Pkg() != nil && (hasPrefixAny(nt.Obj().Pkg().Path(), purePkgs) || hasPrefixAny(nt.Obj().Pkg().Path(), noEffectPkgs)) {
+		return s.freshResult(st, resT, "fnval")
 	}
 	s.note("call through unknown function value in %s: heap havocked", fr.fn.String())
 	s.havocAll(st)
@@ -170,17 +173,37 @@ func (s *Session) pureCall(fn *ssa.Function, args []Val, st *State) Val {
 	s.note("%s treated as a deterministic side-effect-free function (uninterpreted)", fn.String())
 	res := fn.Signature.Results()
 	var in []T
+	arity := ""
 	for _, a := range args {
 		a = s.materialize(a)
 		if a.Tup != nil {
 			continue
+		}
+		if a.Typ != nil {
+			if sl, isSl := a.Typ.Underlying().(*types.Slice); isSl && len(a.L) == 3 {
+				// slices are passed by contents: known length -> the elements; otherwise (contents, off, len)
+				els := shape(sl.Elem())
+				if n, ok := s.knownLen(a); ok && len(els) == 1 {
+					arity += fmt.Sprintf("/%d", n)
+					for i := 0; i < n; i++ {
+						ev := s.load(st, &Loc{Kind: "A", TypeKey: typeKey(sl.Elem()), Ref: a.L[0], Idx: []T{Add(a.L[1], I(int64(i)))}, Typ: sl.Elem()})
+						in = append(in, ev.L...)
+					}
+					continue
+				}
+				if len(els) == 1 {
+					h := s.heapGet(st, heapName("A", typeKey(sl.Elem()), ""), arrSort(arrSort(els[0].Sort)))
+					in = append(in, Select(h, a.L[0]), a.L[1], a.L[2])
+					continue
+				}
+			}
 		}
 		in = append(in, a.L...)
 	}
 	mk := func(t types.Type, idx int) Val {
 		v := Val{Typ: t}
 		for _, l := range shape(t) {
-			v.L = append(v.L, s.uf(fmt.Sprintf("pure:%s#%d%s", fn.String(), idx, l.Path), l.Sort, in...))
+			v.L = append(v.L, s.uf(fmt.Sprintf("pure:%s#%d%s%s", fn.String(), idx, l.Path, arity), l.Sort, in...))
 		}
 		return v
 	}
@@ -230,6 +253,18 @@ func (s *Session) invoke(fr *Frame, cc *ssa.CallCommon, recv Val, args []Val, st
 	m := cc.Method
 	res := cc.Signature().Results()
 	full := m.FullName() // e.g. (github.com/tikv/pd/server/kv.Base).Save
+	// static resolution when the dynamic type is known
+	if len(recv.L) == 1 {
+		if org, ok := s.ifaceOrigin[recv.L[0].S]; ok {
+			ms := s.eng.prog.MethodSets.MethodSet(org.typ)
+			sel := ms.Lookup(m.Pkg(), m.Name())
+			if sel != nil {
+				if f := s.eng.prog.MethodValue(sel); f != nil {
+					return s.staticCall(fr, f, nil, append([]Val{org.val}, args...), st)
+				}
+			}
+		}
+	}
 	if h, ok := invokeModels[full]; ok {
 		return h(s, fr, recv, args, st, cc)
 	}
@@ -246,18 +281,6 @@ func (s *Session) invoke(fr *Frame, cc *ssa.CallCommon, recv Val, args []Val, st
 	if full == "(error).Error" {
 		r := s.uf("errstr", SInt, recv.T0())
 		return scalar(types.Typ[types.String], r)
-	}
-	// static resolution when the dynamic type is known
-	if len(recv.L) == 1 {
-		if org, ok := s.ifaceOrigin[recv.L[0].S]; ok {
-			ms := s.eng.prog.MethodSets.MethodSet(org.typ)
-			sel := ms.Lookup(m.Pkg(), m.Name())
-			if sel != nil {
-				if f := s.eng.prog.MethodValue(sel); f != nil {
-					return s.staticCall(fr, f, nil, append([]Val{org.val}, args...), st)
-				}
-			}
-		}
 	}
 	s.note("interface call %s with unknown dynamic type in %s: heap havocked", full, fr.fn.String())
 	s.havocAll(st)
@@ -417,6 +440,17 @@ func (s *Session) itemLocs(se *SpecEnv, item string) ([]modLoc, error) {
 	if strings.HasSuffix(item, ".*") {
 		allFields = true
 		item = strings.TrimSuffix(item, ".*")
+	}
+	if strings.HasPrefix(item, "ghost ") {
+		name := strings.TrimSpace(strings.TrimPrefix(item, "ghost "))
+		vs, ok := s.eng.db.Ghosts[name]
+		if !ok {
+			if vs, ok = etcdGhosts[name]; !ok {
+				return nil, fmt.Errorf("unknown ghost map %s", name)
+			}
+		}
+		se.st.Sorts["X:"+name] = ghostSort(vs)
+		return []modLoc{{heap: "X:" + name, sort: ghostSort(vs), whole: true}}, nil
 	}
 	if strings.HasPrefix(item, "heap ") {
 		// raw heap family: heap F:pkg.T:.field
@@ -684,6 +718,9 @@ func (s *Session) scanCall(fr *Frame, cc *ssa.CallCommon, mods map[string]string
 	case *ssa.MakeClosure:
 		fn = callee.Fn.(*ssa.Function)
 	default:
+		if nt, ok := cc.Value.Type().(*types.Named); ok && nt.Obj().Pkg() != nil && (hasPrefixAny(nt.Obj().Pkg().Path(), purePkgs) || hasPrefixAny(nt.Obj().Pkg().Path(), noEffectPkgs)) {
+			return false
+		}
 		if fr != nil {
 			if v, ok := fr.vals[cc.Value]; ok {
 				if v.Clo != nil {
@@ -768,6 +805,15 @@ func (s *Session) scanContractMods(c *Contract, fn *ssa.Function, sig *types.Sig
 		if strings.HasPrefix(it, "heap ") {
 			name := strings.TrimSpace(strings.TrimPrefix(it, "heap "))
 			mods[name] = "?"
+			continue
+		}
+		if strings.HasPrefix(it, "ghost ") {
+			name := strings.TrimSpace(strings.TrimPrefix(it, "ghost "))
+			vs, ok := s.eng.db.Ghosts[name]
+			if !ok {
+				vs = etcdGhosts[name]
+			}
+			mods["X:"+name] = ghostSort(vs)
 			continue
 		}
 		item := it
